@@ -11,6 +11,7 @@ from passlib.utils import (
     handlers as uh,
 )
 from passlib.utils import (
+    as_bool,
     splitcomma,
     to_unicode,
 )
@@ -56,6 +57,7 @@ _coerce_scheme_options = dict(
     default_rounds=int,
     vary_rounds=_coerce_vary_rounds,
     salt_size=int,
+    truncate_error=as_bool,
 )
 
 
